@@ -171,6 +171,11 @@ func genC07(c *Ctx) {
 			}
 			// complete runs, several times
 			emit(true, fmt.Sprintf("%s c=2 n=5 size=3 sync=1 mg=0 rep=%d lastfull=1 script=-", op, rep))
+			if op != "pipe" && op != "ccons" {
+				// the next materialisation starts right after the previous terminal returned (free-running)
+				emit(true, fmt.Sprintf("%s c=2 n=6 size=3 sync=0 limit=1 rep=%d nowait=1 lastfull=1 child=1 script=-", op, 10*rep))
+				emit(true, fmt.Sprintf("%s c=3 n=6 size=3 sync=0 cf=2 rep=%d nowait=1 lastfull=1 child=1 script=-", op, 10*rep))
+			}
 			if op == "cmap" || op == "ccons" {
 				emit(true, fmt.Sprintf("%s c=2 n=5 sync=1 mg=1 rep=%d script=1,0,1,0,0", op, rep))
 			}
